@@ -111,6 +111,23 @@ def gen(rng, tier):
         for mode in (False, True):
             cases.append(dict(c, kind="ev", check=mode, show=True))
         cases.append(dict(c, kind="ev", check=False, show=True, fault=0))
+    # arguments of the WRONG SHAPE in one position while the other positions hold references / interpolations (which must
+    # still be evaluated: an argument that is skipped leaves its expression unresolved for the final export)
+    bad = [("num", "1"), ("arr", []), ("obj", [("k", ("str", "v"))]), ("null",), ("bool", True), ("sym", [("name", "nope")]),
+           ("sym", [("name", "parts")]), ("secret", "s")]
+    good_refs = [("sym", [("name", "parts")]), ("arr", [("sym", [("name", "one")]), G.norm_interp([("x", [("name", "one")]), ("y", None)])]),
+                 ("arr", [("str", "a"), ("sym", [("name", "parts"), ("idx", 0)])]), G.norm_interp([("p-", [("name", "one")]), ("", None)])]
+    for bi, b0 in enumerate(bad):
+        for gi, g0 in enumerate(good_refs):
+            vals = [("one", ("str", "1")), ("parts", ("arr", [("str", "a"), ("str", "b")])),
+                    ("j1", ("join", b0, g0)), ("j2", ("join", g0, b0)), ("j3", ("join", b0, b0)),
+                    ("t1", ("tob64", b0)), ("t2", ("fromb64", b0)), ("t3", ("fromjson", b0)), ("t4", ("tostring", b0)),
+                    ("o1", ("open", "pq", b0)), ("o2", ("open", "pq", ("obj", [("region", g0), ("x", b0)]))),
+                    ("after", ("sym", [("name", "one")]))]
+            c = G.case_from_graph({"root": {"imports": [], "values": vals}}, "root")
+            c["provs"] = {"pq": {"in": {"props": {"region": "string"}, "required": ["region"], "closed": False}, "out": "always", "beh": "echo"}}
+            c["sites"] = []
+            cases.append(dict(c, kind="ev", check=(bi + gi) % 2 == 0, show=True))
     # the recorded stack-overflow witness shape, with variations
     for k in range(6):
         envs = {"e0": {"imports": [], "values": [("c", ("sym", [("name", "nope")]))]},
